@@ -43,6 +43,8 @@ def confirm(wt, vdir):
         if "--all-features" in dc:
             feats = ALLF
     nodef = "--no-default-features " if "--no-default-features" in dc else ""
+    if " --release" in dc:
+        nodef = "--release " + nodef  # the demonstration only shows in an optimised build (no debug assertions)
     fopt = ('--features "%s"' % feats) if feats else ""
     if kind == "must_not_compile":
         demo_dst = os.path.join(wt, "examples", demo_name + ".rs")
